@@ -147,6 +147,28 @@ def run(ctx):
             ctx.check('C19.EF2', ok and okc, se.name, 'lock-file-under-dry', se.where(e),
                       'the lock file write is unreachable when dry_run is set (path search with every dry_run test true)',
                       witness=None if r is None else {'blocks': r[0]})
+    # output removal (Builder::CleanupEdge deletes outputs, depfile and lock file) is confined to edges the runner was
+    # running when the build was interrupted: the loop over GetActiveEdges() in Cleanup (empty under -n, above) and, in
+    # Build, the command that was itself killed by the signal (an interrupted result; the dry-run runner produces none).
+    # A call elsewhere has to be conditioned on !dry_run.
+    ce_sites = list(calls_to(prog, 'Builder::CleanupEdge'))
+    for f2, e2 in ce_sites:
+        if f2.name == 'Builder::Cleanup':
+            ok = any(e2['_b'] in f2.reachable_from(l['body']) | {l['body']} for l in loops_over(f2, lambda d: True)
+                     if any(mentions_call(o, 'CommandRunner::GetActiveEdges') for o in origins(f2, {'k': 'var', 'n': l['var'], 'vk': 'local'})))
+            why = 'inside the loop over the runner\'s active edges'
+        else:
+            def licence(k, pol, atom):
+                return (pol is False and mentions_field(atom, 'BuildConfig::dry_run') and '&&' not in k and '||' not in k) or \
+                    (pol is True and '&&' not in k and
+                     all('holds_alternative<BuildResult::Interrupted>' in p_ or 'BuildResult::interrupted()' in p_ or
+                         ('ExitInterrupted' in p_ and 'exit_status' in p_) for p_ in k.split(' || ')))
+            r = f2.find_path(None, lambda x: x is e2, from_succ=f2.entry, sensitive=False,
+                             edge_ok=lambda b, i, s2, f2=f2: not any(licence(*ef) for ef in f2.edge_facts(b, i)))
+            ok = r is None
+            why = 'only for a command killed by the interrupt, or when not dry_run'
+        ctx.check('C19.EF2', ok, f2.name, 'CleanupEdge:outside-interrupt', f2.where(e2), 'CleanupEdge is called %s' % why)
+    ctx.check('C19.EF2', len(ce_sites) >= 2, 'Builder::CleanupEdge', 'CleanupEdge:sites', 'src/build.cc', '%d call sites' % len(ce_sites))
     # what remains reachable under -n (reported)
     rep = []
     for f, nm in ((se, 'DiskInterface::MakeDirs'), (se, 'DiskInterface::WriteFile'), (fc, 'DiskInterface::RemoveFile')):
@@ -167,7 +189,7 @@ def run(ctx):
         guarded(ctx, 'C19.EF2', f2, e2, lambda a: mentions_field(a, 'BuildConfig::dry_run'), False,
                 'the console is locked only outside a dry run', construct='console-locked-under-dry-run')
     ctx.check('C19.EF2', nlock >= 1, 'LinePrinter::SetConsoleLocked', 'console-lock:sites', 'src/status_printer.cc', '%d lock site(s)' % nlock)
-    ctx.floor('C19.EF2', 11)
+    ctx.floor('C19.EF2', 14)
 
     # ---- O1: dependency order of -t commands ------------------------------------------------------
     R('C19.O1', 'O', 'command listings print a statement\'s command only after the commands of '
@@ -206,6 +228,20 @@ def run(ctx):
     pj = prog.fn('PrintJSONString')
     ctx.check('C19.VS1', any(True for _ in pj.calls('EncodeJSONString')), pj.name, 'PrintJSONString:no-encode', pj.loc,
               'PrintJSONString encodes before writing')
+    # ... and writes nothing else: the bytes of every output call in PrintJSONString come from EncodeJSONString's result
+    OUT_DATA = {'fwrite': 0, 'fputs': 0, 'puts': 0, 'printf': None, 'fprintf': None, 'putchar': 0, 'fputc': 0, 'putc': 0, 'write': 1}
+    nout = 0
+    for e in pj.events('call'):
+        if e.get('name') not in OUT_DATA:
+            continue
+        nout += 1
+        data = [e['args'][OUT_DATA[e['name']]]] if OUT_DATA[e['name']] is not None else list(e.get('args') or [])
+        srcs = [o for a in data for o in origins(pj, a)]
+        ok = bool(srcs) and all(mentions_call(o, 'EncodeJSONString') or (isinstance(strip(o), dict) and strip(o).get('k') == 'str')
+                                for o in srcs)
+        ctx.check('C19.VS1', ok, pj.name, 'PrintJSONString:writes-unencoded', pj.where(e),
+                  'what PrintJSONString writes is the encoded string: %s' % sorted({dstr(o)[:40] for o in srcs}))
+    ctx.check('C19.VS1', nout >= 1, pj.name, 'PrintJSONString:no-output', pj.loc, 'PrintJSONString writes its result')
     printers = [f for f in prog.functions.values() if 'Compdb' in f.name and f.file == 'ninja.cc']
     n = 0
     for f in printers:
@@ -229,4 +265,4 @@ def run(ctx):
                             sensitive=False)
             ctx.check('C19.VS1', r is None, f.name, 'compdb:edge-without-inputs-printed', f.where(e),
                       '%s prints an edge (and its separating comma) only if inputs_ is non-empty' % f.name)
-    ctx.floor('C19.VS1', 10)
+    ctx.floor('C19.VS1', 12)
